@@ -123,3 +123,11 @@ Example C20_example_entry_points :
   /\ o_exit (cli run "/w" "/pkg" "i" (Some "o.out") "bad" true) = 1%Z
   /\ o_exit (cli run "/w" "/pkg" "i" (Some "nodir/o.out") "ok" false) = 1%Z.
 Proof. vm_compute. repeat split. Qed.
+
+(* what the model says about GEOPHIRESv3.main() called directly with a RELATIVE or MISSING output argument (no theorem,
+   and not exercised by the correspondence because the files land inside the installed package, i.e. inside the
+   repository under test): the report is resolved against the package directory, the default JSON against the caller's *)
+Example C20_example_direct_relative :
+  main_files "/w" "/pkg" [""; "/w/in.txt"; "rel.out"] = {| f_report := "/pkg/rel.out"; f_json := Some "/pkg/rel.json" |}
+  /\ main_files "/w" "/pkg" [""; "/w/in.txt"] = {| f_report := "/pkg/HDR.out"; f_json := Some "/w/HDR.json" |}.
+Proof. vm_compute. split; reflexivity. Qed.
